@@ -1,5 +1,5 @@
 PROP = {'modules': ['Discv5Model.Props.C10', 'Discv5Model.Props.C09Service'],
- 'lemma_modules': ['Discv5Model.Proofs.QueryLemmas', 'Discv5Model.Proofs.LookupLemmas'],
+ 'lemma_modules': ['Discv5Model.Proofs.QueryLemmas', 'Discv5Model.Proofs.LookupLemmas', 'Discv5Model.Proofs.LookupLedger'],
  'engines': [{'name': 'query', 'quick': 1000, 'thorough': 50000}, {'name': 'service', 'quick': 80, 'thorough': 4000}],
  'rule': 'query engine (cases shared with C09, see there): FindNodeQuery / PredicateQuery driven directly with explicit time in a contract and an adversarial '
          'mode, plus QueryPool cases; into_result (and for FindNodeQuery a peek at the result of a clone in mid-run) is compared with the model and checked '
